@@ -1062,7 +1062,7 @@ class Interp:
         """`switchInt` on a symbolic bool whose two continuations are side-effect free scalar computations that meet
         again (the lowering of `a || b`, `a && b`, `if c {x} else {y}` on scalars): evaluate both and merge the
         assigned locals with ite instead of forking.  Returns the join block or None (then the caller forks)."""
-        budget = [24]
+        budget = [64]
         a = self.pure_region(fr, bb_then, dict(fr.locals), budget)
         if a is None:
             return None
@@ -1072,16 +1072,22 @@ class Interp:
         join, la = a
         lb = b[1]
         merged = {}
+        dead = []
         for k in set(la) | set(lb):
             x = la.get(k, UNINIT); y = lb.get(k, UNINIT)
             if x is y:
                 continue
             if x is fr.locals.get(k, UNINIT) and y is fr.locals.get(k, UNINIT):
                 continue
+            if x is UNINIT or y is UNINIT:
+                dead.append(k)
+                continue
             if not (is_scalar(x) and is_scalar(y)):
                 return None
             merged[k] = ite(cond, x, y)
         fr.locals.update(merged)
+        for k in dead:
+            fr.locals.pop(k, None)
         self.stats.merges = getattr(self.stats, 'merges', 0) + 1
         return join
 
@@ -1140,25 +1146,41 @@ class Interp:
                         return None
                     bb = nxt
                     continue
-                if not z3.is_bool(v) or len(cases) != 1 or other is None:
+                if other is None or len(cases) > 8:
                     return None
-                c = v if cases[0][0] else z3.Not(v)
-                a = self.pure_region(fr, cases[0][1], dict(locs), budget)
-                if a is None:
-                    return None
-                b = self.pure_region(fr, other, dict(locs), budget)
-                if b is None or a[0] != b[0]:
-                    return None
-                la, lb = a[1], b[1]
-                for k in set(la) | set(lb):
-                    x = la.get(k, UNINIT); y = lb.get(k, UNINIT)
-                    if x is y:
-                        locs[k] = x
-                        continue
-                    if not (is_scalar(x) and is_scalar(y)):
+                if z3.is_bool(v):
+                    if len(cases) != 1:
                         return None
-                    locs[k] = ite(c, x, y)
-                return a[0], locs
+                    conds = [v if cases[0][0] else z3.Not(v)]
+                else:
+                    conds = [v == z3.BitVecVal(val, v.size()) for val, _ in cases]
+                # evaluate the default continuation, then fold the cases over it (first matching case wins)
+                acc = self.pure_region(fr, other, dict(locs), budget)
+                if acc is None:
+                    return None
+                join, lacc = acc
+                done = {}
+                for c, (_, tg) in reversed(list(zip(conds, cases))):
+                    a = done.get(tg)
+                    if a is None:
+                        a = self.pure_region(fr, tg, dict(locs), budget)
+                        if a is None or a[0] != join:
+                            return None
+                        done[tg] = a
+                    la = a[1]
+                    merged = {}
+                    for k in set(la) | set(lacc):
+                        x = la.get(k, UNINIT); y = lacc.get(k, UNINIT)
+                        if x is y:
+                            merged[k] = x
+                            continue
+                        if x is UNINIT or y is UNINIT:
+                            continue          # a temporary assigned on one side only: dead after the join (left unassigned: a read is reported)
+                        if not (is_scalar(x) and is_scalar(y)):
+                            return None
+                        merged[k] = ite(c, x, y)
+                    lacc = merged
+                return join, lacc
             else:
                 return None
 
